@@ -310,10 +310,11 @@ def rootStable (fg : Factory.Graph) : Bool :=
   (List.range fg.tracers.length).all (fun x =>
     Factory.rootF fg (fg.tracers.length - 1) x == Factory.rootF fg fg.tracers.length x)
 
-/-- C13 premise of the value-level theorem (decidable): a `Cast` of a single tracer yields a single tracer. -/
-def castsPlain (g : Graph) : Bool :=
+/-- C13 premise of the value-level theorem (decidable): a `Cast` of a tracer that denotes graph input `t` yields a single tracer
+(casts of other values, e.g. of the tuple an operation returns, may yield pytrees). -/
+def castsPlain (g : Graph) (fg : Factory.Graph) (t : Nat) : Bool :=
   g.apps.all (fun a => match a with
-    | .cast (.var _) o => (match o with | .var _ => true | _ => false)
+    | .cast (.var x) o => Factory.root fg x != t || (match o with | .var _ => true | _ => false)
     | _ => true)
 
 /-- Positional arguments and keyword names of a call event. -/
